@@ -135,6 +135,14 @@ def match_close(toks, i):
 def _impl_header_matches(header, want):
     """header: text between `impl` and `{`. want: 'Writer' or '<Rabin as Update>' forms."""
     h = re.sub(r'\s+', ' ', header).strip()
+    m = re.match(r'^<\s*(.+?)\s+as\s+(.+)>$', want)
+    if m and not re.match(r'^<\s*(\w+)\s+as\s+([\w:]+)\s*>$', want):
+        # trait with generic arguments and/or non-identifier self type: compare modulo whitespace and lifetimes
+        def norm(x):
+            return re.sub(r"\s+|'\w+\s*", '', x)
+        ty, tr = norm(m.group(1)), norm(m.group(2))
+        hh = norm(re.sub(r'\bwhere\b.*$', '', h))
+        return hh.endswith(tr + 'for' + ty) or (tr + 'for' + ty) in hh
     m = re.match(r'^<\s*(\w+)\s+as\s+([\w:]+)\s*>$', want)
     if m:
         ty, tr = m.group(1), m.group(2).split('::')[-1]
